@@ -90,6 +90,17 @@ fn boundary_val(s: &Shape, n: usize, rng: &mut Rng) -> Option<Val> {
     }
 }
 
+fn has_sorted(s: &Shape) -> bool {
+    match s {
+        Shape::Set(..) | Shape::Map(..) | Shape::Umap(..) => true,
+        Shape::Struct(_, fs) => fs.iter().any(has_sorted),
+        Shape::Ulist(e) => has_sorted(e),
+        Shape::Enum(vs) => vs.iter().any(|(_, p)| p.as_ref().map(has_sorted).unwrap_or(false)),
+        Shape::Disc(_, i) => has_sorted(i),
+        _ => false,
+    }
+}
+
 fn first_lw(s: &Shape) -> Option<usize> {
     match s {
         Shape::List(_, lw) | Shape::Set(_, lw) | Shape::Map(_, _, lw) | Shape::Str(lw) => Some(*lw),
@@ -132,7 +143,8 @@ pub fn generate(reg: &Registry, args: &Args) -> Vec<Vec<String>> {
             if lw == 1 {
                 ns.extend([255usize, 256, 300]);
             }
-            if lw == 2 && args.thorough() {
+            // (lists and strings only: the model's sorted-insert / pairwise-order checks are quadratic)
+            if lw == 2 && args.thorough() && !has_sorted(&shape) {
                 ns.extend([65535usize, 65536]);
             }
             for n in ns {
